@@ -36,6 +36,7 @@ func runC07(w *World, r *Report) {
 	checkFlagBinding(w, r, "C07/WIRING", map[string]bool{"TakeOwnership": true})
 	c07CheckFirst(w, r, ef)
 	c07CheckContent(w, r)
+	c07Preflight(w, r)
 	c07IdentityKey(w, r)
 	c07PatchNeedsOriginal(w, r)
 	c07Stamped(w, r, ef)
@@ -420,6 +421,26 @@ func c07Stamped(w *World, r *Report, ef *Effects) {
 				if !okList {
 					okArgs = false
 				}
+				// … and it is the list as built from that manifest (the whole of it, not a filtered part)
+				if !visit.Common().IsInvoke() && len(visit.Common().Args) > 0 {
+					lv := visit.Common().Args[0]
+					for d := 0; d < 4; d++ {
+						if ct, ok := lv.(*ssa.ChangeType); ok {
+							lv = ct.X
+							continue
+						}
+						break
+					}
+					whole := false
+					if ex, ok := lv.(*ssa.Extract); ok && ex.Index == 0 {
+						if bc, ok := ex.Tuple.(*ssa.Call); ok && bc.Call.IsInvoke() && bc.Call.Method.Name() == "Build" {
+							whole = true
+						}
+					}
+					if !whole {
+						okArgs = false
+					}
+				}
 				// cluster writes in fn on release resources follow the stamping's ok edge
 				okOrder := true
 				bad := ""
@@ -658,5 +679,71 @@ func c07PatchNeedsOriginal(w *World, r *Report) {
 	}
 	if n == 0 {
 		r.Bad("C07/PATCH-NEEDS-ORIGINAL", "update/patch", w.Pos(up.Pos()), "the update visitor no longer patches through updateResource")
+	}
+}
+
+// c07Preflight: the pre-flight visitors (existingResourceConflict, requireAdoption) (a) treat a resource
+// as absent only on the API's not-found answer — any other failure of the lookup is an error — and
+// (b) only read: they never refresh or overwrite the resource infos they are handed (those are the very
+// objects that are sent to the cluster afterwards).
+func c07Preflight(w *World, r *Report) {
+	r.Rule("C07/PREFLIGHT", "in the ownership pre-flight a failed lookup counts as 'absent' only on the IsNotFound edge (any other lookup error is returned), and the pre-flight never calls Get/Refresh on the infos it inspects", 4)
+	for _, name := range []string{"existingResourceConflict", "requireAdoption"} {
+		outer := w.Fn("pkg/action", name)
+		if outer == nil {
+			r.Unk("C07/PREFLIGHT", name+"/anchor", "-", name+" not found")
+			continue
+		}
+		r.Fn(FuncName(outer))
+		nLookup := 0
+		okAbsent, whyAbsent := true, ""
+		mutates := ""
+		for _, fn := range withAnon(outer) {
+			g := FullGraph(fn)
+			for _, c := range callInstrs(fn) {
+				f, _ := calleeOf(c.Common())
+				if f == nil {
+					continue
+				}
+				switch FuncName(f) {
+				case "(*k8s.io/cli-runtime/pkg/resource.Info).Get", "(*k8s.io/cli-runtime/pkg/resource.Info).Refresh":
+					mutates = w.InstrPos(c)
+				case "(*k8s.io/cli-runtime/pkg/resource.Helper).Get":
+					nLookup++
+					_, bad := nilTestEdges(errResult(c))
+					// the not-found edges
+					var nf []Edge
+					for _, c2 := range callInstrs(fn) {
+						cc, isCall := c2.(*ssa.Call)
+						if !isCall {
+							continue
+						}
+						if f2, _ := calleeOf(cc.Common()); f2 != nil && f2.Name() == "IsNotFound" && strings.HasSuffix(fnPkgPath(f2), "apimachinery/pkg/api/errors") {
+							for _, e := range condEdges(cc) {
+								if e.truth {
+									nf = append(nf, e.Edge)
+								}
+							}
+						}
+					}
+					// from the lookup's error edge a success return is reachable only over a not-found edge
+					for _, e := range bad {
+						for _, rp := range g.classifyReturns() {
+							if rp.Class != RetSuccess {
+								continue
+							}
+							if ex, _ := g.PathExists(IPos{e.To(), -1}, retPos(rp), Avoid{}.withEdges(nf...)); ex || len(nf) == 0 {
+								okAbsent, whyAbsent = false, w.InstrPos(c)
+							}
+						}
+					}
+					if len(bad) == 0 {
+						okAbsent, whyAbsent = false, w.InstrPos(c)
+					}
+				}
+			}
+		}
+		r.Check(okAbsent && nLookup > 0, "C07/PREFLIGHT", name+"/absent-only-on-not-found", w.Pos(outer.Pos()), "a failed lookup passes as 'absent' only when the API says not-found", "a lookup that failed for another reason than not-found (forbidden, timeout) at "+whyAbsent+" lets the resource pass as absent: the check is skipped for an object that exists")
+		r.Check(mutates == "", "C07/PREFLIGHT", name+"/read-only", w.Pos(outer.Pos()), "the pre-flight does not refresh the infos it inspects", "the pre-flight overwrites the inspected info with the live object (at "+mutates+"): the object sent to the cluster afterwards is no longer the manifest's")
 	}
 }
